@@ -7,6 +7,7 @@ Every random decision goes through the Choices object; 0 is always the simplest 
 """
 
 SLOT_NAMES = ["a", "b", "dflt"]
+PROVIDE_KWARGS = ["pva", "pvb", "pvc"]
 ELEM_TAGS = ["div", "span", "p", "section"]
 # class-name pool; entries beyond the first few stress C04 (names outside [A-Za-z0-9_], prefixes of each other)
 CLASS_NAMES = ["Comp", "Comp_x", "CompComp", "Knopf", "Tlačítko", "Кнопка", "按钮", "Comp1"]
@@ -184,6 +185,8 @@ class Gen:
         kinds = [("text", 6)]
         if scope["str"]:
             kinds.append(("var", 4))
+        if self.on("provide"):
+            kinds.append(("pvar", 1))
         if P["elems"] and not deep:
             kinds.append(("elem", 6))
         if not deep:
@@ -215,6 +218,8 @@ class Gen:
             if self.on("faults") and ch.chance(1, 6, "varf"):
                 return ["varf", name, self.site()]
             return ["var", name]
+        if k == "pvar":
+            return ["var", ch.choice(PROVIDE_KWARGS + self.provide_keys, "pvar")]
         if k == "elem":
             return ["elem", ELEM_TAGS[ch.draw(len(ELEM_TAGS), "tag")], self.tok(),
                     self.nodes(scope, owner, depth + 1, in_fill=in_fill, in_slot_default=in_slot_default)]
@@ -238,7 +243,10 @@ class Gen:
             return self.comp_node(scope, owner, depth, in_fill)
         if k == "provide":
             key = ch.choice(self.provide_keys, "pkey")
-            kw = [[self.newvar("pv"), self.expr(scope, "pval")] for _ in range(1 + ch.draw(2, "n_pkw"))]
+            # provider kwarg names come from a small fixed pool, so that any template may try to read them as
+            # variables (they must never be visible: "provided values never become template variables")
+            first = ch.draw(3, "pkw_first")
+            kw = [[PROVIDE_KWARGS[(first + q) % 3], self.expr(scope, "pval")] for q in range(1 + ch.draw(2, "n_pkw"))]
             return ["provide", key, kw,
                     self.nodes(scope, owner, depth + 1, in_fill=in_fill, in_slot_default=in_slot_default)]
         if k == "slot":
